@@ -1,6 +1,7 @@
 """Contracts for plugins/fcp_dbc/fcp_dbc/dbc_writer.py (C05, C14)."""
 
-INLINE = ["fcp.specs.type:NumericType.is_signed", "fcp.specs.type:EnumType.is_signed"]
+INLINE = ["fcp.specs.type:NumericType.is_signed", "fcp.specs.type:EnumType.is_signed", "fcp.specs.type:NumericType.is_float",
+          "fcp.specs.type:NumericType.is_double"]
 
 
 @assumed("ext:cantools.database.conversion.BaseConversion.factory")
@@ -28,7 +29,7 @@ def _make_signals(encoding: "seq[ref:Value]", type: "str") -> "tuple[seq[ref:Dbc
     ensures(len(result[0]) == len(encoding))
     ensures(forall(0, len(encoding), lambda i: sig_ok(result[0][i], encoding[i], encoding)))
     ensures(result[1] == (piece_end(encoding[len(encoding) - 1]) + 7) // 8)
-    option("loop0_locals", {"signals": "seq[ref:DbcSignal]"})
+    option("loop0_locals", {"signals": "seq[ref:DbcSignal]", "mux_ids": "opt[seq[int]]", "mux_count": "opt[int]"})
     loop(0, over="encoding",
          invariant=lambda it: len(signals) == it and forall(0, it, lambda i: sig_ok(signals[i], encoding[i], encoding))
          and dlc == (0 if it == 0 else (piece_end(encoding[it - 1]) + 7) // 8))
